@@ -2,6 +2,7 @@ import Proofs.Machine.ColorOnlyText
 import Proofs.Machine.ColorOnlyCombined
 import Proofs.Machine.ColorOnlyPlain
 import Proofs.Machine.ColorOnlyTextAny
+import Proofs.ColorOnlyCfg
 /-!
 C02 — `--color-only` is a line-for-line, text-preserving filter.
 
@@ -350,5 +351,136 @@ example : (match run presetCfg oddInput with
     | .ok m => m.out.map (·.src) == [0, 1, 2, 4, 5, 6, 7] &&
         m.out.all (fun r => oddInput[r.src]?.map (·.raw) == some r.text)
     | .error _ => false) = true := by decide
+
+-- from the options to the configuration ---------------------------------------------------------------
+
+/-!
+Third part (session 3, seeded change `C02-w5-02`): the step from the option values to the `Config` the handlers read
+(`set_options` tail + `Config::from`, model `DeltaModel/ColorOnlyCfg.lean`, tables regenerated from `src/options/set.rs`,
+`src/config.rs`, `src/parse_styles.rs`, `src/cli.rs` into `Generated/ColorOnlyCfg.lean`). The hypotheses `NormalForm cfg` /
+`Preset cfg` of the theorems above are *derived* here from "the user asked for `--color-only`".
+-/
+open ColorOnlyCfg in
+/-- **`color_only_config_normal_form`**: for every valuation `o` of the option fields after the `set_options!` macro in
+which `color_only` is on — whatever `raw`, `side_by_side`, `line_numbers`, `navigate`, the style and decoration strings …
+are — every style parser, every answer of `is_word_diff()`: the configuration `Config::from` builds after the tail of
+`set_options` has `color_only` on and no decoration on the commit, file and hunk-header styles (the normal form), and
+`config.side_by_side` is off. -/
+theorem color_only_config_normal_form (parse : String → String → ElemStyle) (o : OptV) (wd : Bool) (base : Cfg)
+    (h : o.bool "color_only" = true) :
+    NormalForm (finalCfg parse o wd base) ∧ sideBySide (setOptionsTail o) wd = false :=
+  finalCfg_normal parse o wd base h
+
+open ColorOnlyCfg in
+/-- **`color_only_config_presets`**: … and when the presets the mode implies are what the macro resolved (raw commit /
+file / hunk-header style strings, markers kept, tab width 0: the `color-only` and `raw` builtin features both give
+these) the configuration satisfies `Preset`, for every style parser that reads `raw` as a raw style. -/
+theorem color_only_config_presets (parse : String → String → ElemStyle) (hraw : ∀ d, (parse "raw" d).isRaw = true)
+    (o : OptV) (wd : Bool) (base : Cfg) (h : o.bool "color_only" = true)
+    (hc : o.str "commit_style" = "raw") (hf : o.str "file_style" = "raw") (hh : o.str "hunk_header_style" = "raw")
+    (hk : o.bool "keep_plus_minus_markers" = true) (ht : o.nat "tab_width" = 0) :
+    Preset (finalCfg parse o wd base) :=
+  finalCfg_preset parse hraw o wd base h hc hf hh hk ht
+
+open ColorOnlyCfg in
+/-- **`color_only_any_source_normal_form`**: whenever the value delta resolves for `color-only` is true — given on the
+command line, in `[delta]`, through `git -c`, in a custom feature, by a builtin feature or `DELTA_FEATURES` (C13's
+resolution model, every enumeration order `π` of the builtin features) — the configuration the machine runs under is
+in the normal form and side-by-side is off, whatever every other option is and wherever it comes from. -/
+theorem color_only_any_source_normal_form (parse : String → String → ElemStyle) (π : List Options.Name)
+    (inp : Options.Inputs) (wd : Bool) (base : Cfg)
+    (h : Options.valIsTrue (Options.effective π inp "color-only") = true) :
+    NormalForm (cfgOfInputs parse π inp wd base) ∧ sideBySide (setOptionsTail (optAfterMacro π inp)) wd = false :=
+  cfgOfInputs_normal parse π inp wd base h
+
+open ColorOnlyCfg in
+/-- **`color_only_requested_line_for_line`** (the composition): `--color-only` requested by any source, any other
+options, a git input in which every `@@` line is followed by a line of its hunk ⇒ one row per input line, in order. -/
+theorem color_only_requested_line_for_line (parse : String → String → ElemStyle) (π : List Options.Name)
+    (inp : Options.Inputs) (wd : Bool) (base : Cfg)
+    (h : Options.valIsTrue (Options.effective π inp "color-only") = true) {d : L} {ls : List L} {m : M}
+    (hd : detectSource d.text = .gitDiff) (hg : ∀ l ∈ d :: ls, l.grep ≠ 2) (hf : Followed false (d :: ls))
+    (e : run (cfgOfInputs parse π inp wd base) (d :: ls) = .ok m) :
+    m.out.map (·.src) = List.range (ls.length + 1) :=
+  color_only_line_for_line (color_only_any_source_normal_form parse π inp wd base h).1 hd hg hf e
+
+/-- the two readings of the `--color-only` block of `set_options` (this property's extractor and C13's) agree -/
+theorem color_only_block_same_as_c13 :
+    (∀ o ∈ Options.colorOnlyResetOptions,
+      o ∈ (Generated.ColorOnlyCfg.tailBoolAssigns.map (·.1) ++ Generated.ColorOnlyCfg.tailStrAssigns.map (·.1)).map ColorOnlyCfg.longOf) ∧
+    (∀ o ∈ (Generated.ColorOnlyCfg.tailBoolAssigns.map (·.1) ++ Generated.ColorOnlyCfg.tailStrAssigns.map (·.1)).map ColorOnlyCfg.longOf,
+      o ∈ Options.colorOnlyResetOptions) :=
+  ColorOnlyCfg.tail_agrees_with_c13
+
+/-- a style parser for the examples: `raw` / `omit`, a `box` in the style string or in the decoration string -/
+def sampleParse (s d : String) : ElemStyle :=
+  { isRaw := decide (s = "raw"), isOmitted := decide (s = "omit"),
+    deco := if s = "yellow box" ∨ d = "box" then .box else .none }
+
+/-- `--color-only --raw --side-by-side --line-numbers --file-style 'yellow box' --commit-decoration-style box` -/
+def everythingOn : ColorOnlyCfg.OptV :=
+  { bool := fun f => f = "color_only" || f = "raw" || f = "side_by_side" || f = "line_numbers" || f = "keep_plus_minus_markers"
+    str := fun f => if f = "file_style" then "yellow box" else if f = "commit_decoration_style" then "box" else "raw"
+    nat := fun _ => 0 }
+
+example : sampleParse "yellow box" "none" = { deco := .box } ∧ everythingOn.bool "raw" = true := by decide
+/-- what the theorems say there: color-only stays on, no decoration, side-by-side off (the line-number gutter, an
+explicit override, stays) -/
+example : (ColorOnlyCfg.finalCfg sampleParse everythingOn false {}).colorOnly = true ∧
+    (ColorOnlyCfg.finalCfg sampleParse everythingOn false {}).fileStyle = {} ∧
+    (ColorOnlyCfg.finalCfg sampleParse everythingOn false {}).commitStyle = { isRaw := true } ∧
+    ColorOnlyCfg.sideBySide (ColorOnlyCfg.setOptionsTail everythingOn) false = false ∧
+    ColorOnlyCfg.lineNumbers (ColorOnlyCfg.setOptionsTail everythingOn) false = true := by decide
+
+/-- `delta --color-only` with `[delta] raw = true, side-by-side = true, file-decoration-style = box` -/
+def rawInGitconfig : Options.Inputs :=
+  { cli := [("color-only", "true")], cliFeatures := none, envFeatures := none, envNavigate := false, noGitconfig := false,
+    defaultFile := some { main := [("raw", "true"), ("side-by-side", "true"), ("file-decoration-style", "box")],
+                          sections := [], other := [] },
+    configFile := none, params := [] }
+
+/-- `delta --raw` with `[delta] features = co, file-style = yellow box`, `[delta "co"] color-only = true` -/
+def colorOnlyInFeature : Options.Inputs :=
+  { rawInGitconfig with
+    cli := [("raw", "true")]
+    defaultFile := some { main := [("features", "co"), ("file-style", "yellow box")],
+                          sections := [("co", [("color-only", "true")])], other := [] } }
+
+def sortedNames : List Options.Name :=
+  ["color-only", "diff-highlight", "diff-so-fancy", "hyperlinks", "line-numbers", "navigate", "raw", "side-by-side"]
+
+/-- the hypothesis of `color_only_any_source_normal_form` holds for both, `raw` is on in both, and the conclusion is what
+the model computes -/
+example : Options.valIsTrue (Options.effective sortedNames rawInGitconfig "color-only") = true ∧
+    Options.valIsTrue (Options.effective sortedNames colorOnlyInFeature "color-only") = true := by decide
+example : (ColorOnlyCfg.optAfterMacro sortedNames rawInGitconfig).bool "raw" = true ∧
+    (ColorOnlyCfg.optAfterMacro sortedNames colorOnlyInFeature).bool "raw" = true ∧
+    (ColorOnlyCfg.optAfterMacro sortedNames rawInGitconfig).bool "side_by_side" = true ∧
+    (ColorOnlyCfg.optAfterMacro sortedNames rawInGitconfig).str "file_decoration_style" = "box" ∧
+    (ColorOnlyCfg.optAfterMacro sortedNames colorOnlyInFeature).str "file_style" = "yellow box" := by decide
+example : (ColorOnlyCfg.cfgOfInputs sampleParse sortedNames rawInGitconfig false {}).colorOnly = true ∧
+    (ColorOnlyCfg.cfgOfInputs sampleParse sortedNames rawInGitconfig false {}).fileStyle = { isRaw := true } ∧
+    (ColorOnlyCfg.cfgOfInputs sampleParse sortedNames colorOnlyInFeature false {}).colorOnly = true ∧
+    (ColorOnlyCfg.cfgOfInputs sampleParse sortedNames colorOnlyInFeature false {}).fileStyle = {} := by decide
+
+/-- a `git show` with a binary file and a submodule bump -/
+def binarySubmodule : List L :=
+  (["diff --git a/logo.png b/logo.png", "index 3b18e51..9fd5a3c 100644", "Binary files a/logo.png and b/logo.png differ",
+    "diff --git a/vendor/lib b/vendor/lib", "index 1111111..2222222 160000", "--- a/vendor/lib", "+++ b/vendor/lib",
+    "@@ -1 +1 @@"].map mkL) ++
+  [{ mkL "-Subproject commit 1111111111111111111111111111111111111111" with submodule := some "1111111111111111111111111111111111111111".toList },
+   { mkL "+Subproject commit 2222222222222222222222222222222222222222" with submodule := some "2222222222222222222222222222222222222222".toList }]
+
+/-- the normal form is needed, and `raw` alone is not enough: the same styles with `config.color_only` off (what a
+`color_only: opt.color_only && !opt.raw` would give for `--color-only --raw`) lose the `Binary files … differ` line and
+merge the two `Subproject commit` lines into one row — 10 input lines, fewer rows; with `color_only` on: 10 rows,
+stamped 0 … 9, each with the text of its line. -/
+theorem raw_without_color_only_not_line_for_line :
+    (match run { presetCfg with colorOnly := false, mergeConflicts := false } binarySubmodule with
+     | .ok m => decide (m.out.length < 10)
+     | .error _ => false) = true ∧
+    (match run { presetCfg with mergeConflicts := false } binarySubmodule with
+     | .ok m => m.out.map (·.src) == List.range 10 && m.out.map (·.text) == binarySubmodule.map (·.raw)
+     | .error _ => false) = true := by decide
 
 end C02
